@@ -20,8 +20,8 @@ func zzH_C35_excess_blob() {
 	bcfg := BlobConfig{Target: target, Max: max, UpdateFraction: zzNondetU64()}
 	zzAssume(bcfg.UpdateFraction >= 1<<20) // real update fractions are >= 3338477; with excess <= 2^25 the exponent stays <= 32
 	excess, used := zzNondetU64(), zzNondetU64()
-	zzAssume(excess <= 1<<25)
 	zzAssume(used <= uint64(max)*params.BlobTxBlobGasPerBlob) // header validation
+	zzBlobFeeFacts(&bcfg, excess)
 	baseFee := zzNondetBig(256)
 	parent := &types.Header{ExcessBlobGas: &excess, BlobGasUsed: &used, BaseFee: baseFee}
 	got := calcExcessBlobGas(isOsaka, bcfg, parent)
@@ -79,6 +79,23 @@ func zzH_C35_fake_exp() {
 	zzObserve("lo", got.Uint64())
 }
 
+// zzBlobFeeFacts bounds the excess and states facts about the real blob base fee that the
+// uninterpreted stand-in must respect, so that counterexamples replay natively (the native run
+// evaluates the real exponential and checks the facts on its concrete inputs): the fee is at
+// least MIN_BLOB_BASE_FEE = 1; while the exponent excess/fraction is below 1/2 it is exactly 1
+// (e^0.5 < 2); below 1 it is at most 2. With SMALLEXCESS the excess stays in the first range.
+func zzBlobFeeFacts(bc *BlobConfig, excess uint64) {
+	if zzBound("SMALLEXCESS") != 0 {
+		zzAssume(excess < 1<<19) // update fractions are >= 2^20
+	} else {
+		zzAssume(excess <= 1<<25)
+	}
+	fee := bc.blobBaseFee(excess)
+	zzAssume(zzBigLe(big.NewInt(1), fee))
+	zzAssume(zzAny(2*excess >= bc.UpdateFraction, zzBigEq(fee, big.NewInt(1))))
+	zzAssume(zzAny(excess >= bc.UpdateFraction, zzBigLe(fee, big.NewInt(2))))
+}
+
 // ---- fork selection: which blob schedule and which excess rule apply to a block ----
 
 func zzBlobParams() *params.BlobConfig {
@@ -129,16 +146,13 @@ func zzH_C35_schedule() {
 	ptime := zzNondetU64()
 	zzAssume(ptime < head)
 	excess, used := zzNondetU64(), zzNondetU64()
-	zzAssume(excess <= 1<<20) // exponent excess/fraction <= 1: the native replay evaluates the real exponential
 	zzAssume(used <= 1<<27)
 	parent := &types.Header{Number: big.NewInt(9), Time: ptime, ExcessBlobGas: &excess, BlobGasUsed: &used, BaseFee: zzNondetBig(64)}
 	// Facts about the real blob base fee that the uninterpreted stand-in must respect, so that
 	// counterexamples replay natively (the native run checks them on its concrete inputs):
 	// it is at least MIN_BLOB_BASE_FEE = 1, and below e < 3 while the exponent excess/fraction < 1.
 	actP := zzActive(times, sched, head)
-	fee := actP.blobBaseFee(excess)
-	zzAssume(zzBigLe(big.NewInt(1), fee))
-	zzAssume(zzAny(excess >= actP.UpdateFraction, zzBigLe(fee, big.NewInt(2))))
+	zzBlobFeeFacts(&actP, excess)
 	got := CalcExcessBlobGas(cfg, parent, head)
 	// the block's own timestamp decides both the schedule entry and the EIP-7918 rule
 	want := calcExcessBlobGas(head >= osaka, zzActive(times, sched, head), parent)
